@@ -399,6 +399,16 @@ def step(rng, pa, mo, st):
         for p in ('tag', 'pid', 'gid'):
             sm[p] = src.get_carray(p).get_npy_array().copy()
         names = names + ['tag', 'pid', 'gid']
+        if k < n - start and rng.rand() < 0.25:
+            # a range the source cannot fill is refused and nothing changes
+            try:
+                pa.copy_properties(src, start, start + k + 1)
+            except ValueError:
+                return 'copy_properties(src with %d particles, %d, %d) ' \
+                    'refused' % (k, start, start + k + 1), False
+            return 'copy_properties(src with %d particles, %d, %d): a ' \
+                'range longer than the source was accepted' % (
+                    k, start, start + k + 1), 'FAIL'
         if start + k == n and rng.rand() < 0.5:
             # the default end: up to the last particle
             pa.copy_properties(src, start_index=start)
@@ -519,12 +529,43 @@ def run(seed, steps):
     return None, done
 
 
+def typed_destination():
+    """extract_particles into a destination whose same-named properties have
+    ANOTHER C type (only the widening direction is run: the narrowing one
+    overruns the destination buffer)"""
+    src = ParticleArray(name='s')
+    src.add_property('x', type='float', data=np.array([1., 2., 3., 4.],
+                                                      dtype=np.float32))
+    src.add_property('n', type='int', data=np.array([10, 20, 30, 40],
+                                                    dtype=np.int32))
+    dst = ParticleArray(name='d')
+    dst.add_property('x', type='double')
+    dst.add_property('n', type='long')
+    la = LongArray(4)
+    la.set_data(np.arange(4, dtype=np.int64))
+    src.extract_particles(la, dest_array=dst)
+    gx = dst.get('x', only_real_particles=False).tolist()
+    gn = dst.get('n', only_real_particles=False).tolist()
+    if gx != [1.0, 2.0, 3.0, 4.0] or gn != [10, 20, 30, 40]:
+        return dict(call='extract_particles([0..3], dest_array=d) with x '
+                    'float -> double and n int -> long', observed=dict(
+                        x=gx, n=gn), expected=dict(x=[1.0, 2.0, 3.0, 4.0],
+                                                   n=[10, 20, 30, 40]))
+    return None
+
+
 bad = None
 cases = 0
+typed = None
+try:
+    typed = typed_destination()
+except Exception as e:
+    typed = dict(call='extract_particles into a destination of another '
+                 'type', raised='%s: %s' % (type(e).__name__, str(e)[:200]))
 for seed in d['seeds']:
     b, n = run(seed, d['steps'])
     cases += n
     if b is not None:
         bad = b
         break
-print(json.dumps(dict(bad=bad, cases=cases)))
+print(json.dumps(dict(bad=bad, cases=cases, typed=typed)))
